@@ -13,6 +13,7 @@
     the Lehmer kernel gcd::gcd_in_place enters as a section variable [gk] constrained by its contract
     (the returned length is at most the length of the buffer the result is stored in). *)
 From Dashu Require Import Base.Prelude Base.Words Int.StorageModel.
+From DashuGen Require Import StorageGen.
 Open Scope Z_scope.
 
 Section Ops2.
@@ -35,15 +36,16 @@ Definition from_ref (a : targ) : M_ repr :=
 (* ------------------------------------------------------------------ mul_ops.rs: sqr *)
 Definition square_large (ws : list Z) : M_ repr :=
   let n := len ws in
+  let r := gen_square_large_request n in      (* words.len() * 2, regenerated from mul_ops.rs *)
   guard 13 (2 <=? n) ;;;
-  b <- allocate M (n * 2) ;; b1 <- push_repeat b 0 (n * 2) ;; from_buffer w M (setws b1 (tow (n * 2) (val ws * val ws))).
+  b <- allocate M r ;; b1 <- push_repeat b 0 r ;; from_buffer w M (setws b1 (tow r (val ws * val ws))).
 
 Definition sqr_ref (a : targ) : M_ repr :=
   match small_of a with
   | Some d =>
       if d <? Bw then ret (from_dword w (d * d))
       else let p := d * d in
-           b0 <- allocate M 4 ;; b1 <- push b0 (p mod Bw) ;; b2 <- push b1 ((p / Bw) mod Bw) ;;
+           b0 <- allocate M gen_square_dword_spilled_request ;; b1 <- push b0 (p mod Bw) ;; b2 <- push b1 ((p / Bw) mod Bw) ;;
            b3 <- push b2 ((p / Bw ^ 2) mod Bw) ;; b4 <- push b3 ((p / Bw ^ 3) mod Bw) ;; from_buffer w M b4
   | None => square_large (twords a)
   end.
@@ -57,21 +59,23 @@ Fixpoint max_exp_loop (fuel : nat) (base k pw : Z) : Z * Z :=
   end.
 Definition max_exp_in_word (base : Z) : Z * Z := max_exp_loop (Z.to_nat w) base 1 base.
 
-(** `res = square(res)`: tmp = scratch copy of res (ScratchModel.v), res.fill(0), res.push_zeros(res.len()),
-    sqr::sqr(&mut res, tmp) (debug_assert!(a.len() >= 2)) *)
-Definition pow_square (res : buffer) : M_ buffer :=
+(** `res = square(res)`: tmp = memory.allocate_slice_copy(&res) - the copy must fit the first part (sc words) of the
+    scratch block, guard 40; what follows in that block is the subject of ScratchModel.v (pow_square_scratch) -,
+    res.fill(0), res.push_zeros(res.len()), sqr::sqr(&mut res, tmp) (debug_assert!(a.len() >= 2)) *)
+Definition pow_square (sc : Z) (res : buffer) : M_ buffer :=
   let n := len (bws res) in let v := val (bws res) in
+  guard 40 (n <=? sc) ;;;
   r <- push_repeat res 0 n ;; guard 13 (2 <=? n) ;;; ret (setws r (tow (2 * n) (v * v))).
 
 (** the loop of pow_word_base from bit p down to bit 0 of the exponent *)
-Fixpoint pow_word_loop (p : nat) (e wbase : Z) (res : buffer) : M_ buffer :=
+Fixpoint pow_word_loop (sc : Z) (p : nat) (e wbase : Z) (res : buffer) : M_ buffer :=
   res1 <- (if Z.testbit e (Z.of_nat p) then
              let n := len (bws res) in let v := val (bws res) * wbase in
              push_resizing M (setws res (tow n v)) (v / Bw ^ n)
            else ret res) ;;
   match p with
   | O => ret res1
-  | S p' => r <- pow_square res1 ;; pow_word_loop p' e wbase r
+  | S p' => r <- pow_square sc res1 ;; pow_word_loop sc p' e wbase r
   end.
 
 Definition is_pow2 (x : Z) : bool := 2 ^ Z.log2 x =? x.
@@ -88,17 +92,17 @@ Definition pow_word_base (base e : Z) : M_ repr :=
     else if e <? 2 * wexp then ret (from_dword w (wbase * base ^ (e - wexp)))
     else
       let ex := e / wexp in let er := e mod wexp in
-      res <- allocate M (ex + 1) ;;
+      res <- allocate M (gen_pow_word_request ex) ;;          (* Buffer::allocate(exp + 1), regenerated from pow.rs *)
       let p := Z.log2 ex + 1 - 2 in
       guard 14 (0 <=? p) ;;;
       let sq := wbase * wbase in
       r1 <- push res (sq mod Bw) ;; r2 <- push r1 (sq / Bw) ;;
-      r3 <- pow_word_loop (Z.to_nat p) ex wbase r2 ;;
+      r3 <- pow_word_loop (gen_pow_word_scratch_copy ex) (Z.to_nat p) ex wbase r2 ;;
       let n := len (bws r3) in let v := val (bws r3) * base ^ er in
       r4 <- push_resizing M (setws r3 (tow n v)) (v / Bw ^ n) ;;
       from_buffer w M r4.
 
-Fixpoint pow_dword_loop (p : nat) (e base : Z) (res : buffer) : M_ buffer :=
+Fixpoint pow_dword_loop (sc : Z) (p : nat) (e base : Z) (res : buffer) : M_ buffer :=
   res1 <- (if Z.testbit e (Z.of_nat p) then
              let n := len (bws res) in let v := val (bws res) * base in let carry := v / Bw ^ n in
              let res' := setws res (tow n v) in
@@ -106,23 +110,23 @@ Fixpoint pow_dword_loop (p : nat) (e base : Z) (res : buffer) : M_ buffer :=
            else ret res) ;;
   match p with
   | O => ret res1
-  | S p' => r <- pow_square res1 ;; pow_dword_loop p' e base r
+  | S p' => r <- pow_square sc res1 ;; pow_dword_loop sc p' e base r
   end.
 
 Definition pow_dword_base (base e : Z) : M_ repr :=
   guard 13 ((1 <? e) && (Bw <=? base)) ;;;
-  res <- allocate M (2 * e) ;;
+  res <- allocate M (gen_pow_dword_request e) ;;           (* Buffer::allocate(2 * exp), regenerated from pow.rs *)
   let p := Z.log2 e + 1 - 2 in
   guard 14 (0 <=? p) ;;;
   let sq := base * base in
   r1 <- push res (sq mod Bw) ;; r2 <- push r1 ((sq / Bw) mod Bw) ;;
   r3 <- push r2 ((sq / Bw ^ 2) mod Bw) ;; r4 <- push r3 ((sq / Bw ^ 3) mod Bw) ;;
-  r5 <- pow_dword_loop (Z.to_nat p) e base r4 ;;
+  r5 <- pow_dword_loop (gen_pow_dword_scratch_copy e) (Z.to_nat p) e base r4 ;;
   from_buffer w M r5.
 
 (** mul_large / square_large as called by pow_large_base (see the header: no guard 13 on the intermediate powers) *)
 Definition mul_large_nd (lhs rhs : list Z) : M_ repr :=
-  let n := len lhs + len rhs in
+  let n := gen_mul_large_request (len lhs) (len rhs) in
   b <- allocate M n ;; b1 <- push_repeat b 0 n ;; from_buffer w M (setws b1 (tow n (val lhs * val rhs))).
 
 Fixpoint pow_large_loop (p : nat) (e : Z) (base : list Z) (res : repr) : M_ repr :=
